@@ -45,10 +45,10 @@ Section Slip32.
     end.
 
   (* Slip32KeyDeserializer.__GetPartsFromBytes
-     (the private pad byte is indexed before the chain-code length is looked at: a payload that ends
-      before the key part raises IndexError -- finding F12, recorded under C14) *)
+     (an empty payload and a private payload that ends before the key part are rejected with ValueError
+      by explicit length tests placed before the two index operations -- the repair of finding F12) *)
   Definition slip32_parts (ser : list N) (is_public : bool) : res (list N * list N * list N) :=
-    depth <- of_option (nth_error ser 0) IndexError ;;
+    depth <- of_option (nth_error ser 0) ValueError ;;
     let dn := N.to_nat depth in
     path <- slip32_path ser path_idx dn ;;
     let chain_code_idx := (path_idx + dn * bip32_index_len)%nat in
@@ -56,7 +56,7 @@ Section Slip32.
     let chain_code_bytes := slice chain_code_idx key_idx ser in
     let key_bytes := skipn key_idx ser in
     key <- (if is_public then Ok key_bytes
-            else k0 <- of_option (nth_error key_bytes 0) IndexError ;;
+            else k0 <- of_option (nth_error key_bytes 0) ValueError ;;
                  if negb (k0 =? slip32_priv_pad_expected) then Err ValueError else Ok (skipn 1 key_bytes)) ;;
     cc <- mk_chain_code chain_code_bytes ;;
     Ok (key, path, cc).
